@@ -1,3 +1,21 @@
+#![allow(dead_code)]
+// ---- /repo/emulator-2a (binary crate) modules, compiled into the harness from the working tree ----
+// They refer to each other through `crate::{args, error, helpers, tui}`, so they sit at the crate
+// root under their own names. `runner` is the binary crate's CLI glue (C12 uses it via the real
+// binary; it is included so that the module tree is complete).
+#[allow(unused, clippy::all)]
+#[path = "/repo/emulator-2a/src/args.rs"]
+mod args;
+#[allow(unused, clippy::all)]
+#[path = "/repo/emulator-2a/src/error.rs"]
+mod error;
+#[allow(unused, clippy::all)]
+#[path = "/repo/emulator-2a/src/helpers/mod.rs"]
+mod helpers;
+#[allow(unused, clippy::all)]
+#[path = "/repo/emulator-2a/src/tui/mod.rs"]
+mod tui;
+
 mod boardref;
 mod checks;
 mod driver;
@@ -7,6 +25,7 @@ mod isa;
 mod lockstep;
 mod prng;
 mod sut;
+mod textgen;
 
 use driver::{Check, Opts, ReplayFile, Tier};
 
@@ -28,6 +47,8 @@ macro_rules! dispatch {
             "C14" => $f(&checks::c14::C14 $(, $arg)*),
             "C10" => $f(&checks::c10::C10 $(, $arg)*),
             "C07" => $f(&checks::c07::C07 $(, $arg)*),
+            "C12" => $f(&checks::c12::C12 $(, $arg)*),
+            "C17" => $f(&checks::c17::C17 $(, $arg)*),
             _ => {
                 eprintln!("unknown or not-applicable property {}", $id);
                 std::process::exit(2)
